@@ -161,6 +161,7 @@ var keyPool = map[string]poolKey{
 	"K4":  {"k4", 8, []string{"s1", "s2", "s3"}, "pub", "c4"},
 	"K5":  {"k5", 7, []string{"s2"}, "pub", "c5"},
 	"K1b": {"k1", 7, []string{"s1", "s2", "s3"}, "pub", "c1b"},
+	"KX":  {"kx", 7, []string{"s1", "s2", "s3"}, "pub", "cx"}, // config bytes of an unknown version: held, never usable
 }
 
 var suiteAEAD = map[string]uint16{"s1": 1, "s2": 2, "s3": 3}
@@ -196,6 +197,9 @@ func newKeyring(seed int64) *keyring {
 			suites = append(suites, [2]uint16{c.KDF, c.AEAD})
 		}
 		b := encECHConfig(pk.cid, 0x20, kr.privs[pk.kid].PublicKey().Bytes(), suites, 64+int(pk.cid), []byte(sniName[pk.pub]))
+		if pk.cfg == "cx" {
+			b[0], b[1] = 0xfe, 0x0e
+		}
 		kr.cfgs[pk.cfg] = b
 	}
 	return kr
